@@ -69,7 +69,7 @@ func (g *gen) randValueType() Ty { return valueTypes[g.pick(len(valueTypes))] }
 
 // stmt emits one statement (possibly compound). tail: may this statement end the function with returns.
 func (g *gen) stmt(s *scope, fs *fstate, ind int, depth int) {
-	switch g.pick(22) {
+	switch g.pick(34) {
 	case 0, 1: // x := e
 		t := g.randValueType()
 		e := g.expr(s, t, 2)
@@ -322,6 +322,210 @@ func (g *gen) stmt(s *scope, fs *fstate, ind int, depth int) {
 		g.encodingStmt(s, fs, ind)
 	case 21: // closure capturing a var local
 		g.closureStmt(s, fs, ind)
+	case 22: // make with capacity, cap()
+		et := []Ty{U64, U8, U32}[g.pick(3)]
+		n := g.fresh("s")
+		ln, cp := 1+g.pick(3), 3+g.pick(4)
+		g.key("slice.make-cap." + et.K)
+		g.line(ind, "%s := make(%s, %d, %d)", n, SliceOf(et).Go(), ln, cp)
+		g.declare(s, Var{Name: n, T: SliceOf(et)})
+		fs.minLen[n] = ln
+		c := g.fresh("v")
+		g.line(ind, "%s := uint64(cap(%s)) + uint64(len(%s))", c, n, n)
+		g.declare(s, Var{Name: c, T: U64})
+	case 23: // copy between slices
+		a, ok1 := g.pickSlice(s, fs, 1)
+		if !ok1 {
+			return
+		}
+		var bs []Var
+		for _, v := range s.all() {
+			if v.T.Eq(a.T) && v.Name != a.Name {
+				bs = append(bs, v)
+			}
+		}
+		if len(bs) == 0 {
+			return
+		}
+		b := bs[g.pick(len(bs))]
+		n := g.fresh("v")
+		g.key("slice.copy")
+		g.line(ind, "%s := uint64(copy(%s, %s))", n, a.Name, b.Name)
+		g.declare(s, Var{Name: n, T: U64})
+	case 24: // append a whole slice
+		var as []Var
+		for _, v := range s.all() {
+			if v.T.K == "slice" && v.Assignable {
+				as = append(as, v)
+			}
+		}
+		if len(as) == 0 {
+			return
+		}
+		a := as[g.pick(len(as))]
+		var bs []Var
+		for _, v := range s.all() {
+			if v.T.Eq(a.T) && v.Name != a.Name {
+				bs = append(bs, v)
+			}
+		}
+		if len(bs) == 0 {
+			return
+		}
+		g.key("slice.append-slice")
+		g.line(ind, "%s = append(%s, %s...)", a.Name, a.Name, bs[g.pick(len(bs))].Name)
+	case 25: // pointer to a slice element
+		if v, ok := g.pickSlice(s, fs, 1); ok && v.T.Elem.K != "bool" {
+			p := g.fresh("p")
+			g.key("addr.slice-elem")
+			g.line(ind, "%s := &%s[%s]", p, v.Name, g.index(s, fs, v))
+			g.line(ind, "*%s = %s", p, g.expr(s, *v.T.Elem, 1))
+			g.declare(s, Var{Name: p, T: PtrTo(*v.T.Elem)})
+		}
+	case 26: // new(S), whole-struct load and store through a pointer
+		if len(g.structs) == 0 {
+			return
+		}
+		sd := g.structs[g.pick(len(g.structs))]
+		st := Ty{K: "struct", Name: sd.Name}
+		p := g.fresh("st")
+		g.key("struct.new")
+		g.line(ind, "%s := new(%s)", p, sd.Name)
+		g.declare(s, Var{Name: p, T: PtrTo(st)})
+		f := sd.Fields[g.pick(len(sd.Fields))]
+		g.line(ind, "%s.%s = %s", p, f.Name, g.expr(s, f.T, 1))
+		if g.chance(60) {
+			v := g.fresh("st")
+			g.key("struct.load-store")
+			g.line(ind, "%s := *%s", v, p)
+			g.declare(s, Var{Name: v, T: st})
+			q := g.fresh("st")
+			g.line(ind, "%s := new(%s)", q, sd.Name)
+			g.line(ind, "*%s = %s", q, v)
+			g.declare(s, Var{Name: q, T: PtrTo(st)})
+		}
+	case 27: // pointer to a field
+		var cands []Var
+		for _, v := range s.all() {
+			if v.T.K == "ptr" && v.T.Elem.K == "struct" {
+				cands = append(cands, v)
+			}
+		}
+		if len(cands) == 0 {
+			return
+		}
+		v := cands[g.pick(len(cands))]
+		sd := g.structByName(v.T.Elem.Name)
+		f := sd.Fields[g.pick(len(sd.Fields))]
+		if f.T.K == "str" {
+			return
+		}
+		p := g.fresh("p")
+		g.key("addr.field")
+		g.line(ind, "%s := &%s.%s", p, v.Name, f.Name)
+		g.line(ind, "*%s = %s", p, g.expr(s, f.T, 1))
+		g.declare(s, Var{Name: p, T: PtrTo(f.T)})
+	case 28: // assignment of several results to var locals
+		var fsig *FuncSig
+		for i := range g.funcs {
+			f := g.funcs[i]
+			if f.Name != g.cur && f.Recv == nil && len(f.Results) == 2 && f.Pure {
+				fsig = &g.funcs[i]
+			}
+		}
+		if fsig == nil {
+			return
+		}
+		a := s.ofType(fsig.Results[0], true)
+		b := s.ofType(fsig.Results[1], true)
+		if len(a) == 0 || len(b) == 0 || a[0].Name == b[len(b)-1].Name {
+			return
+		}
+		var args []string
+		for _, p := range fsig.Params {
+			args = append(args, g.expr(s, p.T, 1))
+		}
+		g.key("assign.multi-from-call")
+		g.line(ind, "%s, %s = %s(%s)", a[0].Name, b[len(b)-1].Name, fsig.Name, strings.Join(args, ", "))
+	case 29: // nil comparison of a pointer
+		var ps []Var
+		for _, v := range s.all() {
+			if v.T.K == "ptr" {
+				ps = append(ps, v)
+			}
+		}
+		if len(ps) == 0 {
+			return
+		}
+		n := g.fresh("v")
+		g.key("nil.pointer-compare")
+		g.line(ind, "%s := %s %s nil", n, ps[g.pick(len(ps))].Name, []string{"==", "!="}[g.pick(2)])
+		g.declare(s, Var{Name: n, T: Bool})
+	case 30: // infinite loop left by break
+		if depth <= 0 || g.loopDepth >= 2 {
+			return
+		}
+		g.loopDepth++
+		c := g.fresh("lv")
+		g.key("loop.forever-break")
+		g.line(ind, "var %s uint64 = 0", c)
+		g.declare(s, Var{Name: c, T: U64})
+		g.line(ind, "for {")
+		g.line(ind+1, "if %s >= %d {", c, 1+g.pick(4))
+		g.line(ind+2, "break")
+		g.line(ind+1, "}")
+		body := &scope{parent: s}
+		for k := 0; k < 1+g.pick(2); k++ {
+			g.stmt(body, fs, ind+1, depth-1)
+		}
+		g.closeScope(body, ind+1)
+		g.line(ind+1, "%s = %s + 1", c, c)
+		g.line(ind, "}")
+		g.loopDepth--
+	case 31: // slice of structs
+		if len(g.structs) == 0 {
+			return
+		}
+		sd := g.structs[g.pick(len(g.structs))]
+		st := Ty{K: "struct", Name: sd.Name}
+		n := g.fresh("ss")
+		ln := 1 + g.pick(3)
+		g.key("slice.of-structs")
+		g.line(ind, "%s := make([]%s, %d)", n, sd.Name, ln)
+		var inits []string
+		for _, f := range sd.Fields {
+			inits = append(inits, fmt.Sprintf("%s: %s", f.Name, g.expr(s, f.T, 1)))
+		}
+		g.line(ind, "%s[%d] = %s{%s}", n, g.pick(ln), sd.Name, strings.Join(inits, ", "))
+		e := g.fresh("st")
+		g.line(ind, "%s := %s[%d]", e, n, g.pick(ln))
+		g.declare(s, Var{Name: e, T: st})
+		_ = n
+	case 32: // map with string keys
+		n := g.fresh("ms")
+		g.key("map.string-keys")
+		g.line(ind, "%s := make(map[string]uint64)", n)
+		g.line(ind, "%s[%s] = %s", n, g.expr(s, Str, 1), g.expr(s, U64, 1))
+		g.line(ind, "%s[\"k\"] = %s", n, g.expr(s, U64, 1))
+		a, b := g.fresh("v"), g.fresh("ok")
+		g.line(ind, "%s, %s := %s[%s]", a, b, n, g.expr(s, Str, 1))
+		g.declare(s, Var{Name: a, T: U64})
+		g.declare(s, Var{Name: b, T: Bool})
+		c := g.fresh("v")
+		g.line(ind, "%s := uint64(len(%s))", c, n)
+		g.declare(s, Var{Name: c, T: U64})
+	case 33: // string comparison and length in a condition
+		svs := s.ofType(Str, false)
+		if len(svs) == 0 {
+			return // len of a constant string is a constant expression goose does not accept
+		}
+		n := g.fresh("v")
+		g.key("str.len-cond")
+		g.line(ind, "var %s uint64 = 0", n)
+		g.line(ind, "if uint64(len(%s)) > %d {", svs[g.pick(len(svs))].Name, g.pick(6))
+		g.line(ind+1, "%s = %s", n, g.expr(s, U64, 1))
+		g.line(ind, "}")
+		g.declare(s, Var{Name: n, T: U64, Assignable: true})
 	}
 }
 
